@@ -451,11 +451,15 @@ impl BlockFilterRpc for BlockFilterRpcImpl {
         let mode = IteratorMode::From(from_key.as_ref(), direction);
         let snapshot = self.swc.storage().db.snapshot();
         let iter = snapshot.iterator(mode).skip(skip);
+        #[cfg(nervosnetwork_ckb_light_client_verif)]
+        crate::verif_hooks::reader_point("get_cells:snapshot");
 
         let mut last_key = Vec::new();
         let cells = iter
             .take_while(|(key, _value)| key.starts_with(&prefix))
             .filter_map(|(key, value)| {
+                #[cfg(nervosnetwork_ckb_light_client_verif)]
+                crate::verif_hooks::reader_point("get_cells:entry");
                 // The args of the stored script is shorter than the searched args: the key
                 // starts with the prefix only because of the bytes of its block number.
                 if key.len() < prefix.len() + CELL_KEY_SUFFIX_LEN {
@@ -628,12 +632,16 @@ impl BlockFilterRpc for BlockFilterRpcImpl {
         let mode = IteratorMode::From(from_key.as_ref(), direction);
         let snapshot = self.swc.storage().db.snapshot();
         let iter = snapshot.iterator(mode).skip(skip);
+        #[cfg(nervosnetwork_ckb_light_client_verif)]
+        crate::verif_hooks::reader_point("get_transactions:snapshot");
 
         if search_key.group_by_transaction.unwrap_or_default() {
             let mut tx_with_cells: Vec<TxWithCells> = Vec::new();
             let mut last_key = Vec::new();
 
             for (key, value) in iter.take_while(|(key, _value)| key.starts_with(&prefix)) {
+                #[cfg(nervosnetwork_ckb_light_client_verif)]
+                crate::verif_hooks::reader_point("get_transactions:entry");
                 // The args of the stored script is shorter than the searched args: the key
                 // starts with the prefix only because of the bytes of its block number.
                 if key.len() < prefix.len() + TX_KEY_SUFFIX_LEN {
@@ -753,6 +761,8 @@ impl BlockFilterRpc for BlockFilterRpcImpl {
             let txs = iter
                 .take_while(|(key, _value)| key.starts_with(&prefix))
                 .filter_map(|(key, value)| {
+                    #[cfg(nervosnetwork_ckb_light_client_verif)]
+                    crate::verif_hooks::reader_point("get_transactions:entry");
                     // The args of the stored script is shorter than the searched args: the key
                     // starts with the prefix only because of the bytes of its block number.
                     if key.len() < prefix.len() + TX_KEY_SUFFIX_LEN {
@@ -874,10 +884,14 @@ impl BlockFilterRpc for BlockFilterRpcImpl {
         let mode = IteratorMode::From(from_key.as_ref(), direction);
         let snapshot = self.swc.storage().db.snapshot();
         let iter = snapshot.iterator(mode).skip(skip);
+        #[cfg(nervosnetwork_ckb_light_client_verif)]
+        crate::verif_hooks::reader_point("get_cells_capacity:snapshot");
 
         let capacity: u64 = iter
             .take_while(|(key, _value)| key.starts_with(&prefix))
             .filter_map(|(key, value)| {
+                #[cfg(nervosnetwork_ckb_light_client_verif)]
+                crate::verif_hooks::reader_point("get_cells_capacity:entry");
                 // The args of the stored script is shorter than the searched args: the key
                 // starts with the prefix only because of the bytes of its block number.
                 if key.len() < prefix.len() + CELL_KEY_SUFFIX_LEN {
